@@ -191,8 +191,41 @@ def case_mac(m, layout, mlen):
     K, M = R.buf("K", 16), R.buf("M", mlen)
     other = R.buf("T", 16)
     r = to_int(R.call("ascon_mac_verify", other, M, mlen, K))
+    if r is None:
+        # the verdict is not computed by the proven comparator (C02.D4) and is no constant for an independent
+        # tag: look for a concrete forgery among structured differences; without one the case stays unproved
+        w = _forgery(m, layout, mlen)
+        if w:
+            return ("verify", w)
+        raise Unsupported("the verdict of ascon_mac_verify for an independent tag is not decided by ascon_aead_check_tag; "
+                          "no forgery among single-bit and two-bit tag differences")
     if r != 0xffffffff:
         return ("verify", "an unrelated tag is not rejected with -1 (returned %s)" % r)
+    return None
+
+
+def _forgery(m, layout, mlen):
+    """tags that differ from the genuine one in one bit, or in the same bit of
+    two different bytes, must be rejected"""
+    deltas = []
+    for k in range(128):
+        deltas.append({k})
+    for b in (0, 7):
+        for i in range(16):
+            for j in range(i + 1, 16):
+                deltas.append({8 * i + b, 8 * j + b})
+    for dl in deltas:
+        R = modes.Run(m, layout)
+        K, M = R.buf("K", 16), R.buf("M", mlen)
+        t = R.out(16)
+        mask = bytearray(16)
+        for k in dl:
+            mask[k // 8] |= 1 << (k % 8)
+        R.mc.store(t, tuple(sponge.xor(R.spec.mac(SB("K", 16), SB("M", mlen)), cbytes(bytes(mask)))))
+        r = to_int(R.call("ascon_mac_verify", t, M, mlen, K))
+        if r == 0:
+            return ("a tag that differs from the genuine one in %s is accepted (verdict 0) for every key and message of "
+                    "%d byte(s)" % (" and ".join("bit %d of byte %d" % (k % 8, k // 8) for k in sorted(dl)), mlen))
     return None
 
 
@@ -260,6 +293,59 @@ def case_hkdf(m, layout, variant_a, klen, slen, ilen, outlen):
         d = modes.first_diff(R.read(out, outlen), R.spec.hkdf(variant_a, SB("K", klen), SB("S", slen), SB("I", ilen), outlen))
         if d:
             return ("hkdf-incremental", "expanding as %s: output differs at %s" % (chunks, d))
+    return None
+
+
+def case_hkdf_limit(m, layout, variant_a, counter, posn, ilen, chunks):
+    """expansion from an arbitrary mid-stream state (pseudorandom key P, last
+    block O, block counter and position given): blocks up to number 255 follow
+    RFC 5869, the first request that cannot be served completely returns -1 and
+    leaves zeroes where no output exists, and later requests keep failing"""
+    a = "a" if variant_a else ""
+    tn = "ascon_hkdf%s_state_t" % a
+    t = m.ditype_by_typedef(tn)
+    if not t:
+        raise Unsupported("no debug type for " + tn)
+    off = {mem[0]: (mem[1], mem[2]) for mem in t["members"]}
+    if set(off) != {"prk", "out", "counter", "posn"} or off["counter"][1] != 1:
+        raise Unsupported("unexpected members of %s: %s" % (tn, sorted(off)))
+    R = modes.Run(m, layout)
+    st = R.obj(t["size"])
+    I = R.buf("I", ilen)
+    P, O = SB("P", 32), SB("O", 32)
+    R.mc.store(Ptr(st.obj, off["prk"][0]), P)
+    R.mc.store(Ptr(st.obj, off["out"][0]), O)
+    R.mc.store(Ptr(st.obj, off["counter"][0]), cbytes(bytes([counter])))
+    R.mc.store(Ptr(st.obj, off["posn"][0]), cbytes(bytes([posn])))
+    # specification stream from this state: rest of O, then T(counter), T(counter+1), .. T(255)
+    stream = list(O[posn * 8:])
+    T, n = O, counter
+    while n != 0 and n <= 255 and len(stream) < 8 * (sum(chunks) + 32):
+        # RFC 5869: T(0) is the empty string, so the first block does not use the stored block
+        T = R.spec.hmac(variant_a, P, (tuple(T) if n != 1 else ()) + SB("I", ilen) + cbytes(bytes([n])))
+        stream += list(T)
+        n += 1
+        if n == 256:
+            break
+    avail = len(stream) // 8 if (n == 256 or counter == 0) else None      # None: never exhausted in this case
+    served = 0
+    for k, c in enumerate(chunks):
+        out = R.buf("X%d" % k, c)          # symbolic: zero-fill must be an explicit write
+        r = to_int(R.call("ascon_hkdf%s_expand" % a, st, I if ilen else None, ilen, out, c))
+        want = stream[served * 8:(served + c) * 8]
+        short = avail is not None and served + c > avail
+        if short:
+            want = want + list(cbytes(bytes(c - len(want) // 8)))
+        got = R.read(out, c)
+        d = modes.first_diff(got, tuple(want))
+        what = "request %d of %s from a state with block counter %d, position %d" % (k + 1, chunks, counter, posn)
+        if d:
+            return ("limit", "%s: output differs at %s (%s)" % (what, d, "bytes beyond block 255 must be zero" if short else "RFC 5869 stream"))
+        if short and r != 0xffffffff:
+            return ("limit", "%s asks for more than the 255 blocks can supply but returns %s instead of -1" % (what, r))
+        if not short and r != 0:
+            return ("limit", "%s can be served but returns %s" % (what, r))
+        served = min(served + c, avail) if avail is not None else served + c
     return None
 
 
